@@ -34,6 +34,7 @@ pub struct PortView {
     pub last_sync: Option<(usize, u16, u128)>, // (master idx, seq, master send time)
     pub queue: Vec<String>,                    // forwarded TLVs waiting for this port (text items)
     pub acc: Option<Vec<String>>,              // acceptable master list (clock identities, hex)
+    pub last_mean_delay: Option<i128>,         // what the filter last reported as mean delay (delay or peer delay of its last measurement)
 }
 
 pub struct World {
@@ -108,6 +109,7 @@ pub struct MeasOracle {
     pub pd_resps: Vec<(usize, String, u16, i128, i128, bool)>, // (port, responder, seq, t2 = reqRecv, t4' = recv - corr, two_step)
     pub pd_fus: Vec<(usize, String, u16, i128)>,           // (port, responder, seq, t3' = origin + corr)
     pub saturated: u64,
+    pub own: String, // the instance's clock identity (hex), from the INIT line
 }
 
 fn be(b: &[u8], off: usize, w: usize) -> u128 {
@@ -129,6 +131,10 @@ impl MeasOracle {
     fn wire_time(b: &[u8], off: usize) -> i128 {
         ((be(b, off, 6) * 1_000_000_000 + be(b, off + 6, 4)) << 32) as i128
     }
+    /// the port identity of port `k` of this instance, as `pid` prints it
+    fn me(&self, k: usize) -> String {
+        format!("{}:{}", self.own, k)
+    }
     fn pid(b: &[u8], off: usize) -> String {
         format!("{}:{}", hex(&b[off..off + 8]), be(b, off + 8, 2))
     }
@@ -140,6 +146,7 @@ impl MeasOracle {
         }
         if w[0] == "INIT" {
             *self = MeasOracle::default();
+            self.own = w.get(1).map(|x| x.to_string()).unwrap_or_default();
             return;
         }
         if w[0] == "PORT" {
@@ -192,11 +199,16 @@ impl MeasOracle {
                     }
                     0x3 if w[1] == "EVT" && len >= 54 => {
                         let v = self.unsigned(recv - corr);
-                        self.pd_resps.push((k, src, seq, Self::wire_time(&b, 34), v, b[6] & 0x02 != 0))
+                        if Self::pid(&b, 44) == self.me(k) {
+                            self.pd_resps.push((k, src, seq, Self::wire_time(&b, 34), v, b[6] & 0x02 != 0))
+                        }
                     }
                     0xa if len >= 54 => {
                         let v = self.unsigned(Self::wire_time(&b, 34) + corr);
-                        self.pd_fus.push((k, src, seq, v))
+                        // a follow-up answering another requester (a sibling port of this instance, say) is not ours
+                        if Self::pid(&b, 44) == self.me(k) {
+                            self.pd_fus.push((k, src, seq, v))
+                        }
                     }
                     _ => {}
                 }
@@ -484,6 +496,16 @@ impl<'a> Gen<'a> {
                 pv.pending_ctx.push(ctx);
                 if pv.pending_ctx.len() > 6 {
                     pv.pending_ctx.remove(0);
+                }
+            }
+            if let Some(r) = rest.strip_prefix("meas ") {
+                // the recording filter answers every measurement with mean_delay = delay, else peer delay, of that measurement
+                let f: Vec<&str> = r.split_whitespace().collect();
+                if f.len() == 6 {
+                    let md = if f[2] != "-" { f[2].parse::<i128>().ok() } else if f[3] != "-" { f[3].parse::<i128>().ok() } else { None };
+                    if md.is_some() {
+                        self.w.ports[k - 1].last_mean_delay = md;
+                    }
                 }
             }
             if let Some(r) = rest.strip_prefix("fwd ") {
@@ -1179,12 +1201,19 @@ impl<'a> Gen<'a> {
             f.correction = sub3;
             format!("P{k} GEN {}", hex(&f.bytes()))
         };
+        // a follow-up that answers a sibling port of this instance (same clock, next port number) with the same
+        // sequence id, from the same responder: not this port's
+        let mk_sibling_fu = |g: &Self, who: [u8; 8]| {
+            let mut f = g.base_frame(rng, 0xa, who, 1, id).with_ts_pid_body(s3 + 1, n3, g.w.own_clock, k as u16 + 1);
+            f.correction = sub3;
+            format!("P{k} GEN {}", hex(&f.bytes()))
+        };
         let ts_op = format!("P{k} TXTS pdreq {id} {t1}");
         self.out.count("gen.pdelay-exchange");
         // 0 = tx timestamp, 1 = resp(r1), 2 = fu(r1), 3 = resp(r2), 4 = fu(r2)
         let order: &[u8] = *rng.pick(&[
             &[0u8, 1, 2][..], &[0, 1, 2], &[1, 0, 2], &[1, 2, 0], &[2, 1, 0], &[0, 1, 1, 2], &[0, 1, 3], &[0, 1, 2, 3], &[0, 1, 2, 4],
-            &[0, 3, 1, 2], &[0, 1], &[0, 2], &[1, 2], &[0, 1, 2, 1], &[0, 1, 4],
+            &[0, 3, 1, 2], &[0, 1], &[0, 2], &[1, 2], &[0, 1, 2, 1], &[0, 1, 4], &[0, 1, 5, 2], &[0, 5, 1, 2], &[1, 5, 0, 2],
         ]);
         for &x in order {
             if self.dead {
@@ -1201,6 +1230,13 @@ impl<'a> Gen<'a> {
                     }
                 }
                 3 => mk_resp(self, r2),
+                5 => {
+                    if two_step {
+                        mk_sibling_fu(self, r1)
+                    } else {
+                        continue;
+                    }
+                }
                 _ => mk_fu(self, r2),
             };
             self.emit(op);
@@ -1365,6 +1401,13 @@ impl<'a> Gen<'a> {
             let gotv = [got[2].clone(), got[3].clone(), got[4].clone(), got[5].clone(), got[6].clone(), got[8].clone(), got[9].clone(), got[10].clone(), got[11].clone()];
             if want != gotv {
                 self.out.oracle("C19", "observed-port-ds-differs-from-configuration", &format!("DUMP -> port {} shows (announce, timeout, sync, mechanism, delay interval, version, minor, asymmetry, master-only) = {gotv:?}, configured {want:?}", i + 1));
+            }
+            // a P2P port shows the link delay it last measured, in whatever state it is
+            if mech == "P2P" {
+                let want_mld = self.w.ports[i].last_mean_delay.map(|d| (d >> 16).clamp(i64::MIN as i128, i64::MAX as i128)).unwrap_or(0);
+                if got[7] != want_mld.to_string() {
+                    self.out.oracle("C19", "observed-mean-link-delay-not-the-measured-one", &format!("DUMP -> port {} ({}) shows mean link delay {} (2^-16 ns), the last link delay its filter reported is {want_mld}", i + 1, got[1], got[7]));
+                }
             }
             if got[1] != self.w.ports[i].state {
                 self.out.oracle("C19", "observed-port-state-differs", &format!("DUMP -> port {} shown as {}, it is {}", i + 1, got[1], self.w.ports[i].state));
@@ -2092,6 +2135,104 @@ pub fn generate_master(out: &mut Out, rng: &Prng, thorough: bool) {
         }
         g.out.count("scenario");
     }
+    let n = g.frames.frames_checked;
+    g.out.add("c10.frames-checked", n);
+}
+
+/// C09 / C10 on the slave side of the sequence-number wrap: one E2E port, slave of a master, sends 66 000 Delay_Reqs;
+/// around the wrap and now and then elsewhere an exchange is completed with the response of the *previous* request
+/// arriving late (after the next request has gone out) - it must not be paired with the newer request.
+pub fn generate_slave_wrap(out: &mut Out, rng: &Prng, _thorough: bool) {
+    let mut g = new_gen(out);
+    let mut tries = 0;
+    let mut parent: Option<Master> = None;
+    loop {
+        g.start_scenario(rng);
+        tries += 1;
+        let e2e = !g.w.ports[0].p2p && !g.w.ports[0].master_only;
+        if e2e && !g.dead {
+            // a clean better master on port 1
+            let clock = [0x00, 0x00, 0x00, 0x00, 0x00, 0x00, 0x00, 0x02];
+            let ann = AnnounceFields { utc: 37, p1: 0, class: 6, acc: 0x20, var: 0, p2: 0, gm: clock, steps: 0, time_source: 0x20 };
+            let mut m = Master { clock, port: 1, ann, seq: 10, sync_seq: 0, two_step: false, flags1: 0x08 };
+            for _ in 0..3 {
+                m.seq = m.seq.wrapping_add(1);
+                let mut f = g.base_frame(rng, 0xb, m.clock, m.port, m.seq);
+                f.flags[1] = m.flags1;
+                f.set_announce(&m.ann);
+                g.emit(format!("P1 GEN {}", hex(&f.bytes())));
+            }
+            g.w.masters.push(m.clone());
+            g.bmca_op(rng);
+            if !g.dead && g.w.ports[0].state == "Slave" {
+                parent = Some(m);
+                break;
+            }
+        }
+        if tries > 300 {
+            break;
+        }
+    }
+    let Some(m) = parent else { return };
+    let resp_for = |g: &Gen, id: u16, t_rx: u128, rng: &Prng| -> String {
+        let (s2, n2, sub2) = split_time(t_rx);
+        let mut resp = g.base_frame(rng, 0x9, m.clock, m.port, id).with_ts_pid_body(s2, n2, g.w.own_clock, 1);
+        resp.correction = sub2;
+        format!("P1 GEN {}", hex(&resp.bytes()))
+    };
+    let mut prev: Option<(u16, u128)> = None; // (id, master receive time) of the request before the current one
+    for n in 0..66_000u32 {
+        if g.dead {
+            break;
+        }
+        g.emit("P1 TMR delay".to_string());
+        if g.dead {
+            break;
+        }
+        let Some(id) = g.w.ports[0].last_dreq else { continue };
+        let near = (65_500..65_600).contains(&n) || n % 503 == 0;
+        g.w.ports[0].pending_ctx.clear();
+        if !near {
+            prev = None;
+            continue;
+        }
+        let t_tx = g.w.t(rng);
+        let t_rx = t_tx + rng.log_u128(48) % (SEC / 1000);
+        // the late response of the previous request first (it answers a request that is no longer outstanding)
+        let has_delay_meas = |obs: &str| obs.split(" | ").next().unwrap_or("").split(" ; ").any(|it| {
+            it.strip_prefix("P1:meas ").map(|r| r.split_whitespace().nth(5).map(|x| x != "-").unwrap_or(false)).unwrap_or(false)
+        });
+        let mut late_sent = false;
+        if let Some((pid, prx)) = prev {
+            let op = resp_for(&g, pid, prx, rng);
+            let obs = g.emit(op.clone());
+            g.out.count("swrap.late-response");
+            late_sent = true;
+            if has_delay_meas(&obs) {
+                g.out.oracle("C09", "delay-response-of-previous-request-used", &format!("{op} -> a delay measurement from the Delay_Resp of request {pid}, which was superseded by request {id}"));
+            }
+        }
+        if g.dead {
+            break;
+        }
+        let op = format!("P1 TXTS dreq {id} {t_tx}");
+        let obs = g.emit(op.clone());
+        if late_sent && has_delay_meas(&obs) {
+            g.out.oracle("C09", "delay-response-of-previous-request-used", &format!("{op} -> a delay measurement is complete before request {id} was answered: the late Delay_Resp of the previous request was paired with this request's transmit timestamp"));
+        }
+        if g.dead {
+            break;
+        }
+        if rng.chance(1, 2) {
+            let op = resp_for(&g, id, t_rx, rng);
+            g.emit(op);
+            prev = None;
+        } else {
+            // leave it unanswered: its response arrives after the next request
+            prev = Some((id, t_rx));
+        }
+    }
+    g.out.count("swrap.runs");
     let n = g.frames.frames_checked;
     g.out.add("c10.frames-checked", n);
 }
